@@ -83,6 +83,10 @@ class Blocks(ArrayExpr):
     def _meta(self):
         return self.array._meta
 
+    def _requires_grid_preservation(self, dependency):
+        # Blocks are selected by position in the input's block grid.
+        return True
+
     @functools.cached_property
     def chunks(self):
         """Compute chunks by selecting from the source array's chunks."""
